@@ -515,7 +515,12 @@ class TorControlProtocol(LineOnlyReceiver):
         values = [strargs[i] for i in range(1, len(strargs), 2)]
 
         def maybe_quote(s):
-            if ' ' in s:
+            # a QuotedString (with C-style escapes) is needed for
+            # anything Tor wouldn't read back as a single bare word
+            if any(c in s for c in ' \t\r\n"\\'):
+                s = s.replace('\\', '\\\\').replace('"', '\\"')
+                s = s.replace('\n', '\\n').replace('\r', '\\r')
+                s = s.replace('\t', '\\t')
                 return '"%s"' % s
             return s
         values = [maybe_quote(v) for v in values]
